@@ -384,6 +384,10 @@ def spread_order(scenarios):
     for s in scenarios:
         stem = s['name'].rsplit('_p', 1)[0]
         groups.setdefault(stem, []).append(s)
+    # within a stem: one pool thread first (callers racing a pool thread), then none (callers carry everything), then more
+    rank = {1: 0, 0: 1, 2: 2, 3: 3}
+    for stem in groups:
+        groups[stem].sort(key=lambda s: rank.get(s['pool'], 9))
     out, level = [], 0
     while any(len(g) > level for g in groups.values()):
         for stem in groups:
